@@ -187,7 +187,19 @@ package git
 //gvc:  opt coarse
 //gvc:  opt frame args
 //gvc:  sink DeleteLooseObject requires packed: has(ow.seen, arg0)
+//gvc:  sink DeleteLooseObject requires durable: !wc.#open
+//gvc:  sink ForEachObjectHash requires installed: !wc.#open && err == nil
 //gvc:  ensures named: err == nil ==> keyid(h) == now(enc).#packid
+//gvc:end
+
+// newPackWriter: the writer it returns is open; the pack becomes part of the
+// repository when Close succeeds (PackWriter.Close -> save()).
+//gvc:func (*Repository).newPackWriter
+//gvc:  props C22
+//gvc:  theory int
+//gvc:  opt coarse
+//gvc:  opt frame args
+//gvc:  grants open: result1 == nil ==> result0 != nil && result0.#open
 //gvc:end
 
 //gvc:func (*Repository).RepackObjects
